@@ -50,6 +50,8 @@ VARIANTS = [
     dict(engine="langevin", system="three", molid=[0, 2], remove_com=["angular", 2]),
     dict(engine="xl", system="h2o_h2", molid=[0], k=9),
     dict(engine="basic", system="h2o_h2", molid=[0], remove_com=["linear", 1]),
+    dict(engine="basic", system="h2o_h2", molid=[0, 1], run_kwargs={"scale_vel": [2, 250.0]}),
+    dict(engine="langevin", system="h2o_h2", molid=[1], run_kwargs={"control_energy_shift": True}),
 ]
 
 
